@@ -160,6 +160,9 @@ class FrameCollector:
             if variable.vid in var_lookup:
                 variable_val = var_lookup[variable.vid]
                 del var_lookup[variable.vid]
+                # ... and out of the identity cache with it: an expression can get hold of our copy of the variables
+                # (gc.get_referrers), which would then be a reference to the entry we have just removed
+                var_cache.forget(variable_val.hash)
                 var_ids = variable_val.children
         short_path, app_frame = self.parse_short_name(filename)
         return StackFrame(filename, short_path, func_name, lineno, var_ids, class_name,
